@@ -17,7 +17,9 @@ RULE = ('one case = one generated program run through the real Session (NEW, ent
         'non-trivial = at least one loop, call or jump')
 EXPLANATION = ('theorems (PcbV.Props.C19) on PcbV.Model.MiniBasic: FOR trip count, RETURN resumes after the call '
                'at any depth (stack discipline), ON selection, mismatch errors, Mech refines Spec for compiled '
-               'FOR/WHILE nests; correspondence: printed trace + final error of the real interpreter vs the Lean '
+               'FOR/WHILE nests and (PcbV.Model.MiniBasicX) for structured programs with IF..THEN..ELSE in statement '
+               'form and GOSUB/RETURN to compiled subroutines, stale loop records left by early exits are dropped '
+               'by NEXT/WEND; correspondence: printed trace + final error of the real interpreter vs the Lean '
                'mechanism (whole program in one protocol line); oracle: an independent recursive interpreter of '
                'the program TREE written from the statement (no positions, no stacks)')
 TRUSTED_BASE = ['PcbV.Model.MiniBasic is a hand transcription of interpreter.py for_/_find_next/iterate_loop/next_/'
